@@ -31,18 +31,22 @@ class RepoIndex:
         self.files[rel] = (src, tree)
         for n in tree.body:
             if isinstance(n, ast.ClassDef):
-                self.classes.setdefault(n.name, (rel, n))
+                if n.name in self.classes and self.classes[n.name][0] != rel:
+                    continue        # across files the first file listed wins (the contract lists its own file first)
+                self.classes[n.name] = (rel, n)
                 for m in n.body:
                     if isinstance(m, (ast.FunctionDef, ast.AsyncFunctionDef)):
                         q = n.name + '.' + m.name
-                        # with @overload stubs the last definition wins, as in Python
+                        # within a class the last definition wins (as in Python, e.g. after @overload stubs)
                         self.functions[q] = (rel, m)
             elif isinstance(n, (ast.FunctionDef, ast.AsyncFunctionDef)):
+                if n.name in self.functions and self.functions[n.name][0] != rel:
+                    continue
                 self.functions[n.name] = (rel, n)
             elif isinstance(n, ast.Assign):
                 for t in n.targets:
                     if isinstance(t, ast.Name):
-                        self.module_assigns[t.id] = (rel, n.value)
+                        self.module_assigns.setdefault(t.id, (rel, n.value))
 
     # ------------------------------------------------------------
     def function(self, qual):
